@@ -95,12 +95,11 @@ func r121Assertions(c *an.Ctx) {
 				// path-sensitive proof over the comma-ok tests of the same operand
 				ok2, witness = g.AssertionProved(ta)
 			}
-			_ = witness
 			if ok2 {
 				guarded++
 				c.Okf(rule, construct, "single-value assertion dominated by a successful test of the same value")
 			} else {
-				c.Failf(rule, construct, ta.Pos(), "single-value type assertion with no dominating comma-ok test or type-switch arm: a misplaced or ill-typed DSL call panics here instead of reporting an error")
+				c.Failf(rule, construct, ta.Pos(), "single-value type assertion with no dominating comma-ok test or type-switch arm: a misplaced or ill-typed DSL call panics here instead of reporting an error%s", map[bool]string{true: " (" + witness + ")", false: ""}[witness != ""])
 			}
 			return true
 		})
